@@ -1,10 +1,228 @@
 /-
-  Drive/Define.lean — driver suite `define` (stub; to be implemented).
+  Drive/Define.lean — driver suites `define` and `derive`: run a history of class-creating
+  statements (class definitions, mixins, derivation operators, Field-class definitions) and
+  instantiations through the model (Sem/Define.lean, Sem/Derive.lean) and print, per step, the
+  resulting class (fields by name with declaration and default, `_required`, constants,
+  signature, MRO, flags) or the exception class.  Also evaluates the documented field-set
+  specification (Spec/FieldSet.lean) on what the real code produced.
 -/
 import TypedpyModel.Drive.Wire
+import TypedpyModel.Sem.Derive
+import TypedpyModel.Spec.FieldSet
 namespace Typedpy.Drive.Define
 open Lean (Json)
+open Typedpy Typedpy.Wire
 
-def run (_j : Json) : Except String Json := .error "suite define not implemented"
+def optJ {α} (f : α → Json) : Option α → Json
+  | none => .null
+  | some x => f x
+
+def natJ (n : Nat) : Json := Json.num (Lean.JsonNumber.fromNat n)
+def strsJ (xs : List String) : Json := Json.arr (xs.map Json.str).toArray
+
+def numOptsJ (kind : String) (o : NumOpts) : Json :=
+  Json.mkObj ([("k", Json.str kind)]
+    ++ (match o.mult with | some m => [("mult", Json.num (Lean.JsonNumber.fromInt m))] | none => [])
+    ++ (match o.min with | some q => [("min", qToJson q)] | none => [])
+    ++ (match o.max with | some q => [("max", qToJson q)] | none => [])
+    ++ (if o.exclMax then [("excl", Json.bool true)] else [])
+    ++ (match o.sign with
+        | .any => [] | .pos => [("sign", .str "pos")] | .neg => [("sign", .str "neg")]
+        | .nonpos => [("sign", .str "nonpos")] | .nonneg => [("sign", .str "nonneg")]))
+
+def sizeJ (sz : SizeOpts) (withUniq : Bool := true) : List (String × Json) :=
+  (match sz.min with | some n => [("minItems", natJ n)] | none => [])
+  ++ (match sz.max with | some n => [("maxItems", natJ n)] | none => [])
+  ++ (if withUniq && sz.uniq then [("uniq", Json.bool true)] else [])
+
+def seqJ : SeqKind → List (String × Json)
+  | .list => []
+  | .deque => [("seq", .str "deque")]
+
+partial def declToJson : FieldDecl → Json
+  | .number o => numOptsJ "number" o
+  | .integer o => numOptsJ "integer" o
+  | .float o => numOptsJ "float" o
+  | .string lo hi pat => Json.mkObj ([("k", Json.str "string")]
+      ++ (match lo with | some n => [("minLength", natJ n)] | none => [])
+      ++ (match hi with | some n => [("maxLength", natJ n)] | none => [])
+      ++ (match pat with | some p => [("pattern", Json.str p)] | none => []))
+  | .boolean => Json.mkObj [("k", .str "boolean")]
+  | .enumLit vals => Json.mkObj [("k", .str "enumLit"), ("values", Json.arr (vals.map valToJson).toArray)]
+  | .enumCls cls names => Json.mkObj [("k", .str "enumCls"), ("cls", .str cls), ("names", strsJ names)]
+  | .seqAny k sz => Json.mkObj ([("k", Json.str "seqAny")] ++ seqJ k ++ sizeJ sz)
+  | .seqOf k f sz => Json.mkObj ([("k", Json.str "seqOf"), ("item", declToJson f)] ++ seqJ k ++ sizeJ sz)
+  | .seqPos k fs addl sz => Json.mkObj ([("k", Json.str "seqPos"),
+      ("items", Json.arr (fs.map declToJson).toArray), ("addl", Json.bool addl)] ++ seqJ k ++ sizeJ sz)
+  | .setAny imm sz => Json.mkObj ([("k", Json.str "setAny")] ++ (if imm then [("imm", Json.bool true)] else [])
+      ++ sizeJ sz false)
+  | .setOf imm f sz => Json.mkObj ([("k", Json.str "setOf"), ("item", declToJson f)]
+      ++ (if imm then [("imm", Json.bool true)] else []) ++ sizeJ sz false)
+  | .tupleOf f uniq => Json.mkObj ([("k", Json.str "tupleOf"), ("item", declToJson f)]
+      ++ (if uniq then [("uniq", Json.bool true)] else []))
+  | .tuplePos fs uniq => Json.mkObj ([("k", Json.str "tuplePos"), ("items", Json.arr (fs.map declToJson).toArray)]
+      ++ (if uniq then [("uniq", Json.bool true)] else []))
+  | .mapAny sz => Json.mkObj ([("k", Json.str "mapAny")] ++ sizeJ sz false)
+  | .mapOf kf vf sz => Json.mkObj ([("k", Json.str "mapOf"), ("key", declToJson kf), ("val", declToJson vf)]
+      ++ sizeJ sz false)
+  | .struct c fields defaults => Json.mkObj ([("k", Json.str "struct"), ("name", Json.str c.name),
+      ("required", strsJ c.required), ("addl", Json.bool c.addl),
+      ("fields", Json.arr (fields.map fun (n, f) => Json.arr #[.str n, declToJson f]).toArray)]
+      ++ (if c.ignoreNone then [("ignoreNone", Json.bool true)] else [])
+      ++ (if c.immutable then [("immutable", Json.bool true)] else [])
+      ++ (if c.inline then [("inline", Json.bool true)] else [])
+      ++ (if defaults.isEmpty then [] else
+            [("defaults", Json.arr (defaults.map fun (n, v) => Json.arr #[.str n, valToJson v]).toArray)]))
+  | .anyOf fs => Json.mkObj [("k", .str "anyOf"), ("fields", Json.arr (fs.map declToJson).toArray)]
+  | .oneOf fs => Json.mkObj [("k", .str "oneOf"), ("fields", Json.arr (fs.map declToJson).toArray)]
+  | .allOf fs => Json.mkObj [("k", .str "allOf"), ("fields", Json.arr (fs.map declToJson).toArray)]
+  | .notF fs => Json.mkObj [("k", .str "notF"), ("fields", Json.arr (fs.map declToJson).toArray)]
+  | .noneF => Json.mkObj [("k", .str "noneF")]
+  | .anything => Json.mkObj [("k", .str "anything")]
+
+def dfltOfJson (j : Json) : Except String Dflt := do
+  if let .ok x := j.getObjVal? "lit" then return .lit (← valOfJson x)
+  if let .ok x := j.getObjVal? "gen" then return .gen (← valOfJson x)
+  throw s!"default: {j.compress}"
+
+def dfltToJson : Dflt → Json
+  | .lit v => Json.mkObj [("lit", valToJson v)]
+  | .gen v => Json.mkObj [("gen", valToJson v)]
+
+def optDflt (j : Json) (k : String) : Except String (Option Dflt) :=
+  match optField j k with
+  | none => pure none
+  | some x => do pure (some (← dfltOfJson x))
+
+def attrOfStr : String → Except String AttrVal
+  | "bool" => pure .bool | "list" => pure .list | "dict" => pure .dict
+  | "bareType" => pure .bareType | "generic" => pure .generic | "other" => pure .other
+  | s => throw s!"attr kind {s}"
+
+def entryOfJson (j : Json) : Except String SrcEntry := do
+  match ← (← j.getObjVal? "e").getStr? with
+  | "field" => pure (.field (← declOfJson (← j.getObjVal? "decl")) (← optDflt j "kw") (← optDflt j "eq"))
+  | "const" => pure (.obj (.const (← valOfJson (← j.getObjVal? "v"))))
+  | "attr" => pure (.attr (← attrOfStr (← (← j.getObjVal? "a").getStr?)))
+  | s => throw s!"entry kind {s}"
+
+def optBoolN (j : Json) (k : String) : Except String (Option Bool) :=
+  match optField j k with
+  | none => pure none
+  | some x => do pure (some (← x.getBool?))
+
+def srcOfJson (j : Json) : Except String ClassSrc := do
+  let entries ← (← kvList j "entries").mapM fun (k, e) => do pure (k, ← entryOfJson e)
+  let required ← match optField j "required" with
+    | none => pure none
+    | some x => do pure (some (← (← x.getArr?).toList.mapM (·.getStr?)))
+  pure { name := ← (← j.getObjVal? "name").getStr?, bases := ← strList j "bases", entries, required,
+         optional := ← strList j "optional", addl := ← optBoolN j "addl",
+         ignoreNone := ← optBoolN j "ignoreNone", immutable := ← optBoolN j "immutable",
+         keysOf := ← strList j "keysOf" }
+
+def opOfJson (j : Json) : Except String DeriveOp := do
+  match ← (← j.getObjVal? "kind").getStr? with
+  | "partial" => pure .partialOf
+  | "allRequired" => pure .allRequired
+  | "extend" => pure .extend
+  | "omit" => pure (.omit (← strList j "names"))
+  | "pick" => pure (.pick (← strList j "names"))
+  | s => throw s!"derive kind {s}"
+
+def sortStr (xs : List String) : List String := (dedupStr xs).toArray.qsort (· < ·) |>.toList
+
+def memberToJson : Member → Json
+  | .field d dflt => Json.mkObj [("decl", declToJson d), ("dflt", optJ dfltToJson dflt)]
+  | .const v => Json.mkObj [("const", valToJson v)]
+
+def classToJson (c : ClassDef) : Json :=
+  Json.mkObj [("name", .str c.name), ("mro", strsJ c.mro),
+    ("fields", Json.arr (c.allFields.map fun (n, m) => Json.arr #[.str n, memberToJson m]).toArray),
+    ("own", strsJ (c.own.map (·.1))),
+    ("required", strsJ (sortStr c.required)),
+    ("constants", Json.arr (c.constants.map fun (n, v) => Json.arr #[.str n, valToJson v]).toArray),
+    ("sigReq", strsJ (sortStr c.sig.req)), ("sigOpt", strsJ c.sig.opt), ("kwargs", .bool c.sig.kwargs),
+    ("ignoreNone", .bool c.ignoreNone), ("immutable", .bool c.immutable), ("addl", .bool c.addl)]
+
+def rJson {α} (f : α → Json) : R α → Json
+  | .ok x => Json.mkObj [("ok", f x)]
+  | .error e => Json.mkObj [("err", .str (errName e))]
+
+structure St where
+  w : World
+  fw : List FieldCls
+  out : List Json
+
+/-- what the real code reported for a step (only the parts the spec needs) -/
+structure ImplCls where
+  fields : List String
+  required : List String
+
+def implOfJson (j : Json) : Except String (Option ImplCls) :=
+  match optField j "impl" with
+  | none => pure none
+  | some x => do pure (some { fields := ← strList x "fields", required := ← strList x "required" })
+
+def step (O : Oracles) (s : St) (j : Json) : Except String St := do
+  match ← (← j.getObjVal? "op").getStr? with
+  | "define" =>
+    let src ← srcOfJson (← j.getObjVal? "src")
+    let r := defineClass O s.w src
+    pure { s with w := stepWorld O s.w (.define src), out := s.out ++ [rJson classToJson r] }
+  | "mixin" =>
+    let n ← (← j.getObjVal? "name").getStr?
+    pure { s with w := s.w.add (mixinDef n), out := s.out ++ [Json.mkObj [("ok", .null)]] }
+  | "derive" =>
+    let op ← opOfJson j
+    let source ← (← j.getObjVal? "source").getStr?
+    let name ← (← j.getObjVal? "name").getStr?
+    let st := Step.derive op source name
+    let r := stepClass O s.w st
+    -- the documented field-set specification, evaluated on what the real code produced
+    let spec : List (String × Json) ← match ← implOfJson j, s.w.find source with
+      | some im, some c =>
+        pure [("specFields", Json.bool (fieldSetOk op c.fieldNames im.fields)),
+              ("specRequired", Json.bool (requiredSetOk op c im.required))]
+      | _, _ => pure []
+    let base := match r with
+      | .ok c => [("ok", classToJson c)]
+      | .error e => [("err", Json.str (errName e))]
+    pure { s with w := stepWorld O s.w st, out := s.out ++ [Json.mkObj (base ++ spec)] }
+  | "fieldclass" =>
+    let n ← (← j.getObjVal? "name").getStr?
+    let bases ← strList j "bases"
+    match defineFieldClass s.fw n bases with
+    | .ok c => pure { s with fw := s.fw ++ [c], out := s.out ++ [Json.mkObj [("ok", strsJ c.mro)]] }
+    | .error e => pure { s with out := s.out ++ [Json.mkObj [("err", .str (errName e))]] }
+  | "instantiate" =>
+    let n ← (← j.getObjVal? "cls").getStr?
+    let kw ← kwOfJson (← j.getObjVal? "kw")
+    match s.w.find n with
+    | some c => pure { s with out := s.out ++ [resToJson (instantiate O c kw)] }
+    | none => pure { s with out := s.out ++ [Json.mkObj [("err", .str "model-domain: unknown class")]] }
+  | "assign" =>
+    let n ← (← j.getObjVal? "cls").getStr?
+    let f ← (← j.getObjVal? "field").getStr?
+    let v ← valOfJson (← j.getObjVal? "v")
+    match s.w.find n with
+    | some c => pure { s with out := s.out ++ [rJson (optJ valToJson) (assignField O c f v)] }
+    | none => pure { s with out := s.out ++ [Json.mkObj [("err", .str "model-domain: unknown class")]] }
+  | op => throw s!"step op {op}"
+
+def fieldWorldInit : List FieldCls :=
+  [{ name := "Field", mro := ["Field"] }, { name := "ImmutableField", mro := ["ImmutableField", "Field"] },
+   { name := "String", mro := ["String", "Field"] }, { name := "Integer", mro := ["Integer", "Field"] }]
+
+def run (j : Json) : Except String Json := do
+  let O ← oraclesOfJson j
+  let guards := optField j "guards"
+  let bc ← match guards with | some g => optBool g "consts" true | none => pure true
+  let bn ← match guards with | some g => optBool g "nontypedpy" true | none => pure true
+  let steps ← (← j.getObjVal? "steps").getArr?
+  let init : St := { w := { World.init with blockConsts := bc, blockNonTypedpy := bn },
+                     fw := fieldWorldInit, out := [] }
+  let fin ← steps.toList.foldlM (step O) init
+  pure (Json.mkObj [("steps", Json.arr fin.out.toArray)])
 
 end Typedpy.Drive.Define
